@@ -69,16 +69,20 @@ static int loop_start(m_ctx_t *c, int max_events) {
         c->quit = false;
         c->quit_code = 0;
         
+        /*
+         * Start the tick source right now, before any user callback runs:
+         * a callback may set a new tick, that is then polled by m_ctx_set_tick() itself
+         * as the context is looping; adding it here again would leave a stale timer polled.
+         */
+        if (c->tick.src) {
+            poll_set_new_evt(&c->ppriv, c->tick.src, ADD);
+        }
+        
         /* Eventually start any IDLE module */
         m_iterate(c->modules, evaluate_module, NULL);
 
         /* Publish loop started system message */
         tell_system_pubsub_msg(NULL, c, NULL, M_PS_CTX_STARTED);
-        
-        /* Start the tick source right now! */
-        if (c->tick.src) {
-            poll_set_new_evt(&c->ppriv, c->tick.src, ADD);
-        }
     }
     return ret;
 }
